@@ -44,7 +44,7 @@ def gen_cases(tier, seed):
             d.pop('decoy', None)
         d['kind'] = kind
         d['seed'] = cs
-        d['p'] = r.choice([0.0, 0.2, 0.5, 0.8, 1.0])
+        d['p'] = r.choice([0.0, 0.2, 0.5, 0.8, 1.0, 0.03, 0.08])
         d['tau'] = r.choice([0.0, 0.5, 2.0])
         d['gamma'] = r.choice([0.0, 1.0, 2.0])
         out.append(d)
@@ -129,6 +129,15 @@ def run_case(case):
             return res
         finally:
             sim.percolate_network = orig
+        if 0 < case['p'] < 0.1 and 1 <= G.number_of_edges() <= 8 and case['seed'] % 2 == 0:
+            # "the bond-percolated network": in the sparse regime too every edge of G is kept with probability p (repeated seeded calls of
+            # the builder on a small network, per-edge retention frequencies)
+            from .c12 import edge_retention_blackbox
+            bad = edge_retention_blackbox(G, case['p'], 3000, case['seed'], f=orig)
+            bump(res, 'sparse_regime_retention_tests')
+            if bad:
+                viol(res, 'percolate_network|each_edge_kept_with_probability_p', bad)
+                return res
         if len(captured) != 1:
             if not captured and case['p'] in (0, 1):
                 # no percolated network was built: legitimate only where it is deterministic (p = 0: no edge kept, p = 1: all kept)
